@@ -213,7 +213,101 @@ def run_serialiser_workers(wires):
         shutil.rmtree(tmp, ignore_errors=True)
 
 
+def server_result_tier(ctx):
+    """Part C: the typed objects a server was configured with, as the handler serialises them into results:
+    initialize (capabilities, serverInfo), tools/list, resources/list - under both backends."""
+    caps_pool = [
+        {"tools": {"listChanged": True}},
+        {"logging": {}, "completion": {}, "prompts": {}, "tools": {}, "resources": {}},          # flag-less = advertised
+        {"resources": {"subscribe": False, "listChanged": False}, "prompts": {"listChanged": False}},
+        {"experimental": {"x": {}, "y": {"deep": [None, 0, False, ""]}}, "x-vendor": {}, "x-other": {"a": None}},
+        {},
+        {"tools": {"listChanged": None}, "logging": None},
+    ]
+    infos = [{"name": "n", "version": "v"}, {"name": "", "version": "0", "title": ""}, {"name": "\u00fc\U0001f600", "version": "1", "x-extra": {"k": []}}]
+    init_cases = [(c, infos[i % len(infos)]) for i, c in enumerate(caps_pool)]
+    tool_sets = [
+        [{"name": "a", "schema": {}, "description": ""},
+         {"name": "b", "schema": {"type": "object", "properties": {}, "required": [], "additionalProperties": False}, "description": "d"},
+         {"name": "\u00e9 t", "schema": {"type": "object", "properties": {"x": {"default": None, "enum": [0, False, "", None]}}, "_meta": {"k": {}}},
+          "description": "l\u2028s"}],
+        [],
+    ]
+    res_sets = [[{"uri": "file:///a", "name": "", "description": "", "mime_type": "text/plain"},
+                 {"uri": "file:///b c", "name": "n\u00e9", "description": "d", "mime_type": ""}], []]
+    tmp = tempfile.mkdtemp(prefix="vf_c10c_")
+    outs = {}
+    try:
+        inp = os.path.join(tmp, "in.pkl")
+        pickle.dump({"init": init_cases, "tools": tool_sets, "resources": res_sets}, open(inp, "wb"))
+        for b in ("pydantic", "fallback"):
+            env = child_env()
+            env.pop("MCP_FORCE_FALLBACK", None)
+            if b == "fallback":
+                env["MCP_FORCE_FALLBACK"] = "1"
+            r = subprocess.run([PY, "-B", "-m", "vf.workers.server_result_worker", inp, os.path.join(tmp, b + ".pkl")],
+                               env=env, cwd=ROOT, capture_output=True, text=True, timeout=300)
+            if r.returncode != 0:
+                ctx.inconclusive_because(f"server result worker ({b}) failed: {r.stderr[-300:]}")
+                return
+            outs[b] = pickle.load(open(os.path.join(tmp, b + ".pkl"), "rb"))
+    finally:
+        shutil.rmtree(tmp, ignore_errors=True)
+    if outs["pydantic"]["pydantic_available"] is not True or outs["fallback"]["pydantic_available"] is not False:
+        ctx.inconclusive_because("backend selection not effective in the server result workers")
+        return
+
+    def strip_nulls(v):
+        # the handler dumps with exclude_none: null-valued members of the typed objects may be left out
+        if isinstance(v, dict):
+            return {k: strip_nulls(x) for k, x in v.items() if x is not None}
+        return v
+    for b in ("pydantic", "fallback"):
+        for (caps, info), (st, resp) in zip(init_cases, outs[b]["init"]):
+            case = {"server_result": "initialize", "capabilities": caps, "serverInfo": info, "backend": b}
+            ctx.count("server_results_checked")
+            if st != "ok" or not isinstance(resp, dict) or "result" not in resp:
+                ctx.violation("result_builder_failed", f"initialize ({b}): {resp!r}", case)
+                continue
+            got = resp["result"]
+            for member, given in (("capabilities", caps), ("serverInfo", info)):
+                want = {k: v for k, v in given.items() if v is not None}
+                d = lossless_diff({k: (strip_nulls(v) if member == "capabilities" and isinstance(v, dict) and k not in ("experimental",) and not k.startswith("x-") else v)
+                                   for k, v in want.items()}, got.get(member))
+                if d:
+                    ctx.violation("configured_member_lost_in_result", f"initialize result ({b}): {member}{d}; configured {given!r}, "
+                                  f"sent {got.get(member)!r}", case)
+            ctx.record(case, shape=sorted((got.get("capabilities") or {}).keys()), cls=f"server_result:initialize:{b}")
+        for tools, (st, resp) in zip(tool_sets, outs[b]["tools"]):
+            case = {"server_result": "tools/list", "tools": tools, "backend": b}
+            ctx.count("server_results_checked")
+            listed = ((resp or {}).get("result") or {}).get("tools") if st == "ok" and isinstance(resp, dict) else None
+            if listed is None or len(listed) != len(tools):
+                ctx.violation("result_builder_failed", f"tools/list ({b}): {resp!r}", case)
+                continue
+            for t, l in zip(tools, listed):
+                d = lossless_diff({"name": t["name"], "inputSchema": t["schema"]}, l)
+                if not d and t["description"] and l.get("description") != t["description"]:
+                    d = f".description: {t['description']!r} became {l.get('description')!r}"
+                if d:
+                    ctx.violation("configured_member_lost_in_result", f"tools/list ({b}): tool {t['name']!r}{d}; sent {l!r}", case)
+            ctx.record(case, shape=len(listed), cls=f"server_result:tools:{b}")
+        for ress, (st, resp) in zip(res_sets, outs[b]["resources"]):
+            case = {"server_result": "resources/list", "resources": ress, "backend": b}
+            ctx.count("server_results_checked")
+            listed = ((resp or {}).get("result") or {}).get("resources") if st == "ok" and isinstance(resp, dict) else None
+            if listed is None or len(listed) != len(ress):
+                ctx.violation("result_builder_failed", f"resources/list ({b}): {resp!r}", case)
+                continue
+            for r_, l in zip(ress, listed):
+                if l.get("uri") != r_["uri"] or (r_["name"] and l.get("name") != r_["name"]):
+                    ctx.violation("configured_member_lost_in_result", f"resources/list ({b}): {r_!r} sent as {l!r}", case)
+            ctx.record(case, shape=len(listed), cls=f"server_result:resources:{b}")
+
+
 def run(ctx):
+    if ctx.shard[0] == 0:
+        server_result_tier(ctx)
     rng = ctx.sub_rng("c10")
     cases, per_class = modelgen.build_cases(rng, ctx.tier)
     models = modelgen.discover_models()
